@@ -206,6 +206,10 @@ def drive_and_judge(ctx, worlds, q):
         ext = _load_ext("c02_headerhashes")
         if ext:
             ext.run_ext(ctx)
+        # 7. extension: crashes while state synchronisation COLLECTS (spec/synccrash, harness/c02synccrash)
+        ext = _load_ext("c02_synccrash")
+        if ext:
+            ext.run_ext(ctx)
 
 
 def selftest(ctx, events):
